@@ -24,7 +24,8 @@ The tensors themselves are abstracted away.  What is kept of an MPS/MPO of lengt
   absorbing an interior centre forgets the gauge of the absorbing site; a centre *outside* the chain
   (`n1 < first` or `n2 > last`) is a normalised `1×1` block (a phase) for chains with trivial
   boundary legs, so absorbing it keeps the gauge;
-* `unit : Bool` — `self.factor` is the integer `1` (set by every step run with `normalize=True`).
+* `unit : Bool` — `self.factor` is *known* to be the integer `1` (set by every step run with
+  `normalize=True`; `false` = unknown, which is how a program starts since the caller may hold any factor).
 
 Error branches are modelled as they exist: `Err.yastn` = `YastnError`, `Err.key` = `KeyError`
 (reading `self.A[n]` for a site index outside `0…N-1`, or `self.A[self.pC]` when the key is
@@ -59,7 +60,7 @@ structure St where
   gauge : Int → G
   unit : Bool
 
-def init (N : Nat) : St := { N := N, pC := none, bonds := [], gauge := fun _ => G.none, unit := true }
+def init (N : Nat) : St := { N := N, pC := none, bonds := [], gauge := fun _ => G.none, unit := false }
 
 /-- `n` is an integer key of `self.A` -/
 def St.isSite (s : St) (n : Int) : Bool := decide (0 ≤ n) && decide (n < (s.N : Int))
@@ -88,29 +89,29 @@ def orth (s : St) (n : Int) (to : Dir) (nm : Bool) : St × Option Err :=
       else (s1, some .key)
     | .bad => (s, some .yastn)                              -- :297
 
+/-- conditional gauge update (keeps the record free of `if`s: all other fields are untouched by construction) -/
+def St.updG (s : St) (c : Bool) (n : Int) (g : G) : St :=
+  { s with gauge := fun i => if c = true ∧ i = n then g else s.gauge i }
+
+def keepL : G → G | G.L => G.L | _ => G.none
+def keepR : G → G | G.R => G.R | _ => G.none
+
 /-- `diagonalize_central_` (`:325-352`).  `U` is pushed into site `n1` (keeps a left isometry a left
-isometry since `U†U = 1`), `V` into site `n2` (keeps a right isometry), or into the centre at the ends. -/
+isometry since `U†U = 1`), `V` into site `n2` (keeps a right isometry), or into the centre at the ends.
+`:342-346` reads `A[n1]` when `n1 ≥ first`; `:348-351` reads `A[n2]` when `n2 ≤ last` (only reached if the
+first read did not raise). -/
 def diag (s : St) (nm : Bool) : St × Option Err :=
   match s.pC with
   | none => (s, none)                                       -- :326, returns 0.
   | some (n1, n2) =>
-    if ¬ (n1, n2) ∈ s.bonds then (s, some .key)             -- :328 self.A[self.pC]
-    else
-      let s1 := { s with unit := nm }                       -- :337-338
-      -- :342-346
-      let r1 : St × Option Err :=
-        if 0 ≤ n1 then
-          if s1.isSite n1 then (s1.setG n1 (if s1.gauge n1 = G.L then G.L else G.none), none)
-          else (s1, some .key)
-        else (s1, none)
-      match r1 with
-      | (s2, some e) => (s2, some e)
-      | (s2, none) =>
-        -- :348-351
-        if n2 ≤ (s2.N : Int) - 1 then
-          if s2.isSite n2 then (s2.setG n2 (if s2.gauge n2 = G.R then G.R else G.none), none)
-          else (s2, some .key)
-        else (s2, none)
+    if (n1, n2) ∈ s.bonds then
+      let s1 : St := { s with unit := nm }                  -- :337-338
+      let e1 : Bool := decide (0 ≤ n1) && !s.isSite n1      -- KeyError at :344
+      let s2 := s1.updG (decide (0 ≤ n1) && s.isSite n1) n1 (keepL (s1.gauge n1))
+      let e2 : Bool := decide (n2 ≤ (s.N : Int) - 1) && !s.isSite n2   -- KeyError at :349
+      let s3 := s2.updG (!e1 && decide (n2 ≤ (s.N : Int) - 1) && s.isSite n2) n2 (keepR (s2.gauge n2))
+      (s3, if e1 || e2 then some .key else none)
+    else (s, some .key)                                     -- :328 self.A[self.pC]
 
 /-- `remove_central_` (`:356-358`) -/
 def remove (s : St) : St × Option Err :=
@@ -120,24 +121,27 @@ def remove (s : St) : St × Option Err :=
     if p ∈ s.bonds then ({ s with bonds := s.bonds.erase p, pC := none }, none)
     else (s, some .key)                                     -- `del` raises before pC is reset
 
-/-- `absorb_central_` (`:372-381`).  Any `to` other than `'first'` behaves as `'last'`. -/
+/-- the site the centre `(n1, n2)` is contracted into (`:377`) -/
+def absorbTarget (N : Nat) (to : Dir) (n1 n2 : Int) : Int :=
+  if (to = Dir.first ∧ 0 ≤ n1) ∨ n2 > (N : Int) - 1 then n1 else n2
+
+/-- `absorb_central_` (`:372-381`).  Any `to` other than `'first'` behaves as `'last'`.  A centre outside
+the chain is a normalised `1×1` block: absorbing it keeps the gauge of the site. -/
 def absorb (s : St) (to : Dir) : St × Option Err :=
   match s.pC with
   | none => (s, none)
   | some (n1, n2) =>
-    if ¬ (n1, n2) ∈ s.bonds then (s, some .key)             -- :373 pop raises before pC is reset
-    else
-      let s1 := { s with bonds := s.bonds.erase (n1, n2), pC := none }   -- :373-375
+    if (n1, n2) ∈ s.bonds then
+      let s1 : St := { s with bonds := s.bonds.erase (n1, n2), pC := none }   -- :373-375
       let outside : Bool := decide (n1 < 0) || decide (n2 > (s.N : Int) - 1)
-      let tgt : Int := if (to = Dir.first ∧ 0 ≤ n1) ∨ n2 > (s.N : Int) - 1 then n1 else n2   -- :377
-      if s1.isSite tgt then
-        (if outside then s1 else s1.setG tgt G.none, none)
-      else (s1, some .key)
+      let tgt : Int := absorbTarget s.N to n1 n2
+      (s1.updG (s.isSite tgt && !outside) tgt G.none, if s.isSite tgt then none else some .key)
+    else (s, some .key)                                     -- :373 pop raises before pC is reset
 
 /-- `self.sweep(to)` of `_mps_parent.py:70` with `df = dl = 0`; `none` = `YastnError` -/
 def sweep (N : Nat) : Dir → Option (List Int)
-  | .last => some ((List.range N).map (fun i => (i : Int)))
-  | .first => some ((List.range N).reverse.map (fun i => (i : Int)))
+  | .last => some ((List.range N).map (fun (i : Nat) => (i : Int)))
+  | .first => some ((List.range N).reverse.map (fun (i : Nat) => (i : Int)))
   | .bad => none
 
 /-- is the call one of the four primitive methods -/
